@@ -37,6 +37,9 @@ type fault struct {
 }
 
 func (f fault) String() string {
+	if f.kind == "storm" {
+		return fmt.Sprintf("storm/%s/%d-sessions", f.transport, f.cut)
+	}
 	if f.kind == "get" {
 		return fmt.Sprintf("get/%s/%s/after-%d-of-%d", f.transport, f.mode, f.cut, f.entries)
 	}
@@ -95,6 +98,13 @@ func cases(run *ev.Run) []caseSpec {
 	for _, f := range cat {
 		out = append(out, caseSpec{id: "single:" + f.String(), faults: []fault{f}, tie: []bool{false}})
 		out = append(out, caseSpec{id: "single-tie:" + f.String(), faults: []fault{f}, tie: []bool{true}})
+	}
+	// disconnect storms: many sessions are cut off one after the other WHILE fresh sessions
+	// negotiate (the session table is written by departures and arrivals and read by every
+	// negotiation), then the usual probe
+	nStorm := run.Pick(12, 300)
+	for i := 0; i < nStorm; i++ {
+		out = append(out, caseSpec{id: fmt.Sprintf("storm-%d", i), faults: []fault{{kind: "storm", transport: []string{"direct", "grpc"}[i%2], mode: "mixed", cut: 40 + 20*(i%4)}}, tie: []bool{i%2 == 0}})
 	}
 	nSeq := run.Pick(200, 10000)
 	for i := 0; i < nSeq; i++ {
@@ -172,7 +182,7 @@ func TestCheck(t *testing.T) {
 		}
 	})
 	run.Assume("a message the client sent but whose answer it did not read may or may not have been processed when the client is cancelled or its transport killed over gRPC (any prefix of the unacknowledged messages is accepted); after a half-close, and on direct streams, everything sent was received and must have been processed")
-	run.Finish("fault enumeration: a 5-message Modify script (params, election, three batches incl. a held operation that resolves) cut after each of its 14 send/read steps x {direct: half-close, cancel; gRPC: half-close, cancel, transport kill}; a Get(ALL) over an instance holding 2/5/40/200 entries spread over all five tables, cut after 1..6, n-1, n and inside every table's section x {direct: Send fails; gRPC: cancel, transport kill}; plus seeded sequences of 2-4 such faults on one server. After every fault: contents and highest id/primary vs the model (hooks), then a bounded-progress probe - a new session negotiates, announces max+1 or (every other probe) the very id that is the maximum, adds a next-hop plus the next-hop the cut-off session's held operations were waiting for, reads back with Get exactly what the model predicts (nothing of the departed session may surface, no foreign result on the probe's stream), flushes - each step under a watchdog; a watchdog firing is a violation only if two goroutine dumps prove the server permanently blocked. Distinct = by fault case", 50, false)
+	run.Finish("fault enumeration: a 5-message Modify script (params, election, three batches incl. a held operation that resolves) cut after each of its 14 send/read steps x {direct: half-close, cancel; gRPC: half-close, cancel, transport kill}; a Get(ALL) over an instance holding 2/5/40/200 entries spread over all five tables, cut after 1..6, n-1, n and inside every table's section x {direct: Send fails; gRPC: cancel, transport kill}; plus seeded sequences of 2-4 such faults on one server; plus disconnect storms (40-100 negotiated sessions cut off one after the other in all modes while fresh sessions keep negotiating, the server's yield points around the session table perturbed). After every fault: contents and highest id/primary vs the model (hooks), then a bounded-progress probe - a new session negotiates, announces max+1 or (every other probe) the very id that is the maximum, adds a next-hop plus the next-hop the cut-off session's held operations were waiting for, reads back with Get exactly what the model predicts (nothing of the departed session may surface, no foreign result on the probe's stream), flushes - each step under a watchdog; a watchdog firing is a violation only if two goroutine dumps prove the server permanently blocked. Distinct = by fault case", 50, false)
 }
 
 // ---------------------------------------------------------------- child side
@@ -262,7 +272,10 @@ func (w *world) modifyFault(f fault) ([]candidate, string) {
 	w.nextOp += 20
 	ni := "DEFAULT"
 	batch1 := []gen.OpSpec{mkNH(base+1, ni, 1), mkNH(base+2, ni, 2), mkNHG(base+3, ni, 1, 1, 2)}
-	batch2 := []gen.OpSpec{mkV4(base+4, ni, "10.0.0.0/8", 1, spb.AFTOperation_ADD), mkV6(base+5, "VRF1", "2001:db8::/32", 2)}
+	// (the held operation comes first and a successful install follows it in the same
+	// session: whatever the server remembers about held operations at that point must not
+	// outlive the hand-over to the next primary)
+	batch2 := []gen.OpSpec{mkV6(base+5, "VRF1", "2001:db8::/32", 2), mkV4(base+4, ni, "10.0.0.0/8", 1, spb.AFTOperation_ADD)}
 	batch3 := []gen.OpSpec{mkNHG(base+6, "VRF1", 2, 1), mkNH(base+7, "VRF1", 1), gen.OpSpec{NI: ni, Op: &spb.AFTOperation{Id: base + 8, NetworkInstance: ni, Op: spb.AFTOperation_DELETE, Entry: &spb.AFTOperation_Ipv4{Ipv4: &aftpb.Afts_Ipv4EntryKey{Prefix: "10.0.0.0/8"}}}}}
 	stamp := func(b []gen.OpSpec) []*spb.AFTOperation {
 		var o []*spb.AFTOperation
@@ -438,6 +451,133 @@ func (w *world) getFault(f fault) string {
 	w.logf("fault %s: read %d responses, then abandoned (err=%v)", f, len(got), err)
 	if wd != nil {
 		return "WATCHDOG abandoned Get did not return"
+	}
+	return ""
+}
+
+// stormFault: f.cut sessions negotiate (sequentially, so that all of them are admitted),
+// then one goroutine cuts them off one by one in all termination modes while two other
+// goroutines keep opening fresh sessions that negotiate and leave; the server's yield
+// points around the session table are perturbed. Every negotiation must be answered
+// (accepted, or rejected with FailedPrecondition because an un-negotiated newcomer is in
+// the table at that moment); nothing may hang.
+func (w *world) stormFault(f fault, seed int64) string {
+	y := mon.NewYielder(seed, 2, 60)
+	server.VerifSetPoint(y.Point)
+	defer server.VerifSetPoint(nil)
+	type sess struct {
+		d *drv.ModStream
+		g *drv.GRPCModStream
+	}
+	open := func() (*sess, drv.Stream, string) {
+		if f.transport == "direct" {
+			d := drv.OpenModify(w.srv)
+			return &sess{d: d}, d, ""
+		}
+		g, err := w.gs.OpenModify()
+		if err != nil {
+			return nil, nil, "HARNESS: " + err.Error()
+		}
+		return &sess{g: g}, g, ""
+	}
+	cut := func(s *sess, mode int) {
+		switch {
+		case s.d != nil && mode%2 == 0:
+			s.d.CloseSend()
+		case s.d != nil:
+			s.d.Abort(status.Error(codes.Canceled, "context canceled"))
+		case mode%3 == 0:
+			s.g.CloseSend()
+			s.g.Close()
+		case mode%3 == 1:
+			s.g.Cancel()
+			s.g.Close()
+		default:
+			s.g.Kill()
+			s.g.Close()
+		}
+	}
+	var all []*sess
+	for k := 0; k < f.cut; k++ {
+		s, st, e := open()
+		if e != "" {
+			return e
+		}
+		ss := &drv.Session{Stream: st, Name: fmt.Sprintf("storm%d", k), DefaultNI: "DEFAULT"}
+		if _, err := ss.Params(drv.SinglePrimary(false)); err != nil {
+			if err == drv.ErrWatchdog {
+				return "WATCHDOG negotiation of storm session"
+			}
+			return "HARNESS: storm session could not negotiate: " + err.Error()
+		}
+		all = append(all, s)
+	}
+	errc := make(chan string, 3)
+	stop := make(chan struct{})
+	go func() { // the cutter
+		for k, s := range all {
+			cut(s, k)
+		}
+		errc <- ""
+	}()
+	for n := 0; n < 2; n++ {
+		go func(n int) { // newcomers
+			cnt := 0
+			for {
+				select {
+				case <-stop:
+					errc <- ""
+					return
+				default:
+				}
+				s, st, e := open()
+				if e != "" {
+					errc <- e
+					return
+				}
+				ss := &drv.Session{Stream: st, Name: "newcomer", DefaultNI: "DEFAULT"}
+				_, err := ss.Params(drv.SinglePrimary(false))
+				if err == drv.ErrWatchdog {
+					errc <- "WATCHDOG negotiation of a newcomer during the disconnect storm"
+					return
+				}
+				if err != nil && status.Code(err) != codes.FailedPrecondition {
+					errc <- fmt.Sprintf("PROBLEM negotiation-rejected-during-disconnect-storm|newcomer %d/%d: %v", n, cnt, err)
+					return
+				}
+				cut(s, cnt)
+				cnt++
+			}
+		}(n)
+	}
+	res := <-errc // the cutter (or an early failure of a newcomer)
+	close(stop)
+	for k := 0; k < 2; k++ {
+		select {
+		case e := <-errc:
+			if res == "" {
+				res = e
+			}
+		case <-time.After(drv.Watchdog):
+			if res == "" {
+				res = "WATCHDOG a newcomer's negotiation never returned during the disconnect storm"
+			}
+		}
+	}
+	w.logf("fault %s: %d sessions cut off while newcomers negotiated -> %q", f, len(all), res)
+	if res != "" {
+		return res
+	}
+	// every handler has to be gone
+	deadline := time.Now().Add(drv.Watchdog)
+	for len(w.srv.VerifSessions()) > 0 {
+		if time.Now().After(deadline) {
+			return fmt.Sprintf("PROBLEM session-footprint-not-removed|%d sessions are still in the server's table after the disconnect storm", len(w.srv.VerifSessions()))
+		}
+		time.Sleep(500 * time.Microsecond)
+	}
+	if !mon.WaitQuiescent(drv.Watchdog) {
+		return "WATCHDOG server did not become quiescent after the disconnect storm"
 	}
 	return ""
 }
@@ -670,6 +810,33 @@ func TestChild(t *testing.T) {
 					}
 					probs = append(probs, fmt.Sprintf("%s|after %s the server state matches none of the %d acceptable states; vs all-processed: %v; highest id %s (acceptable up to %s)", sig, label, len(cands), d, mon.IDStr(eid), mon.IDStr(last.max)))
 				}
+			case "storm":
+				e := w.stormFault(f, int64(len(c.id))+sp.Seed)
+				if strings.HasPrefix(e, "WATCHDOG") {
+					if ok, desc := mon.ProvenBlock("gribigo/server.", 700*time.Millisecond); ok {
+						probs = append(probs, fmt.Sprintf("server-wedged:disconnect-storm:%s|%s: %s", mon.BlockSignature(desc), e, desc))
+					} else {
+						inconcl = e
+					}
+					break
+				}
+				if strings.HasPrefix(e, "PROBLEM ") {
+					probs = append(probs, e[8:])
+					break
+				}
+				if e != "" {
+					probs = append(probs, "HARNESS|"+e)
+					break
+				}
+				eid, _ := srv.VerifElection()
+				if mon.IDStr(eid) != mon.IDStr(w.max) {
+					probs = append(probs, fmt.Sprintf("state-after-disconnect-storm:election-id|%s vs %s", mon.IDStr(eid), mon.IDStr(w.max)))
+				}
+				rc, _ := srv.VerifRIB().RIBContents()
+				for _, d := range canon.Diff(w.m.Contents(), canon.FromYgot(rc)) {
+					probs = append(probs, fmt.Sprintf("state-after-disconnect-storm:contents-%s|%s", strings.Fields(d)[0], d))
+				}
+				nCompares++
 			case "get":
 				e := w.getFault(f)
 				if strings.HasPrefix(e, "WATCHDOG") {
